@@ -1,4 +1,3 @@
-use emmylua_code_analysis::Emmyrc;
 use serde::{Deserialize, Serialize};
 use std::path::PathBuf;
 
@@ -7,7 +6,8 @@ pub struct Index {
     pub modules: Vec<Module>,
     pub types: Vec<Type>,
     pub globals: Vec<Global>,
-    pub config: Emmyrc,
+    /// The `Emmyrc` the workspace was analysed with, as a JSON value (object keys sorted).
+    pub config: serde_json::Value,
 }
 
 #[derive(Debug, Serialize, Deserialize)]
